@@ -370,6 +370,13 @@ let dispatch (fn : string) (args : sx list) : sx =
         SNode (k, to_str nm, to_bool hid, to_opt to_nat doc, to_list to_node ch)
       | _ -> raise (Bad "snode") in
     of_list (fun (k, v) -> L [of_str k; of_opt of_nat v]) (visit_module (to_opt to_nat moddoc) (to_list to_node body))
+  | "dyn_module", [moddoc; body] ->
+    let rec to_node = function
+      | L [A k; nm; hid; doc; ch] ->
+        let k = (match k with "func" -> NK_Func | "class" -> NK_Class | "ifmain" -> NK_IfMain | "other" -> NK_Other | _ -> raise (Bad "nkind")) in
+        SNode (k, to_str nm, to_bool hid, to_opt to_nat doc, to_list to_node ch)
+      | _ -> raise (Bad "snode") in
+    of_list (fun (k, v) -> L [of_str k; of_opt of_nat v]) (dyn_module (to_opt to_nat moddoc) (to_list to_node body))
   | "package_modpaths", [d; tree] ->
     let rec to_tree = function
       | L [A "file"; n] -> DFile (to_str n)
